@@ -181,6 +181,10 @@ class World(object):
         if self.ncalls % 2 == 0:
             from wsgiref.util import FileWrapper
             env['wsgi.file_wrapper'] = FileWrapper
+        # every third request comes through a gateway that leaves out CGI variables whose value is empty (PEP 3333:
+        # SCRIPT_NAME "may be omitted" then) - the application is mounted at the root
+        if self.ncalls % 3 == 0:
+            del env['SCRIPT_NAME']
         for k, v in headers.items():
             env['HTTP_' + k.upper().replace('-', '_')] = v
         out = {'path': path, 'qs': qs, 'headers_in': dict(headers)}
